@@ -426,18 +426,62 @@ func (x *Exec) callbackFor(p *ssa.Parameter) *Effects {
 func (x *Exec) call(st *State, i *ssa.Call) {
 	res := x.doCall(st, &i.Call, i, i.Pos())
 	x.regs[i] = res
-	// ghost variables of the function under verification that follow calls of this callee
-	if f, ok := i.Call.Value.(*ssa.Function); ok && x.fc != nil && i.Parent() == x.fn {
-		for _, g := range x.fc.Ghosts {
-			if e := g.On[lastName(funcKey(f))]; e != nil {
-				env := x.envFor(x.fn, st, x.entry, nil)
-				env.locals = true
-				env.pos = i.Pos()
-				x.bindResults(env, nil, f.Signature.Results(), res)
-				st.ghost[g.Name] = x.scalar(x.eval(e, env).V)
+	x.ghostAfterCall(st, &i.Call, i.Parent(), i.Pos(), res)
+}
+
+// ghostAfterCall updates the ghost variables of the function under verification that follow calls
+// of this callee.
+func (x *Exec) ghostAfterCall(st *State, call *ssa.CallCommon, parent *ssa.Function, pos token.Pos, res Value) {
+	name := ghostCallName(call)
+	if name == "" || x.fc == nil || parent != x.fn {
+		return
+	}
+	for _, g := range x.fc.Ghosts {
+		e := g.On[name]
+		if e == nil {
+			continue
+		}
+		env := x.envFor(x.fn, st, x.entry, nil)
+		env.locals = true
+		env.pos = pos
+		x.bindResults(env, nil, call.Signature().Results(), res)
+		if call.IsInvoke() {
+			// the receiver of an interface method call, as recv
+			env.names["recv"] = TV{x.val(st, call.Value), call.Value.Type()}
+		}
+		if ld, ok := call.Value.(*ssa.UnOp); ok {
+			// a call through a function-valued field: its arguments under the names of the field's contract
+			if fa, ok := ld.X.(*ssa.FieldAddr); ok {
+				st0 := deref(fa.X.Type())
+				if fcF := x.w.contracts["field "+typeKey(st0)+"."+fieldName(st0, fa.Field)]; fcF != nil {
+					for k, n := range fcF.ParamNames {
+						if k < len(call.Args) {
+							env.names[n] = TV{x.val(st, call.Args[k]), call.Args[k].Type()}
+						}
+					}
+				}
 			}
 		}
+		st.ghost[g.Name] = x.scalar(x.eval(e, env).V)
 	}
+}
+
+// ghostCallName: the name under which ghost updates ("ghost g on <name> := ...") refer to a call: the
+// function's short name, the method name of an interface call, the field name of a call through a
+// function-valued struct field.
+func ghostCallName(call *ssa.CallCommon) string {
+	if call.IsInvoke() {
+		return call.Method.Name()
+	}
+	switch f := call.Value.(type) {
+	case *ssa.Function:
+		return lastName(funcKey(f))
+	case *ssa.UnOp:
+		if fa, ok := f.X.(*ssa.FieldAddr); ok && f.Op == token.MUL {
+			return fieldName(deref(fa.X.Type()), fa.Field)
+		}
+	}
+	return ""
 }
 
 func (x *Exec) doCall(st *State, call *ssa.CallCommon, instr ssa.Instruction, pos token.Pos) Value {
